@@ -24,6 +24,7 @@ GLOBAL_ASSUMPTIONS = [
     "A2 Python/numpy integers are modelled as mathematical integers",
     "A3 numpy object-dtype element-wise, slicing, reshaping and reduction semantics equal its float semantics over the reals",
     "A4 numpy basic-slice clipping semantics for ShapeOnly array stand-ins",
+    "A8 np.isclose / np.allclose / math.isclose on symbolic operands are idealised to equality over the reals (defects confined to the tolerance of such a guard are left to the concrete companions)",
     "A6 CPython 3.12, z3 5.1, sympy, numpy are correct",
     "A7 the instrumenter's rewrites (R1 astype, R2 np/math/builtin shims, R3 stubs, R5 comparisons) preserve behaviour on non-symbolic data (concrete companion runs exercise the real uninstrumented code)",
 ]
